@@ -702,3 +702,95 @@ Proof.
     + rewrite sleep_events_In, Hnw. split; [intros []|].
       intros (reply & Hres & _). exfalso. apply Hnwr. exact (Hok _ Hres).
 Qed.
+
+(* ---------- a whole conversation on a healthy port ---------- *)
+(* What the far side must have put on the line for a conversation: for each message a reply frame or nothing. *)
+Definition conv_ok (c : msg * option frame) : Prop :=
+  match snd c with
+  | Some f => response_expected (fst c) = true /\ wf_frame f
+  | None => response_expected (fst c) = false
+  end.
+Definition conv_tape (conv : list (msg * option frame)) : list N :=
+  concat (map (fun c => match snd c with Some f => encode_nl f | None => [] end) conv).
+Definition conv_sent (conv : list (msg * option frame)) : list N :=
+  concat (map (fun c => sent (fst c)) conv).
+Definition conv_results (conv : list (msg * option frame)) : list (result rerr (option msg)) :=
+  map (fun c => Ok (option_map msg_of_frame (snd c))) conv.
+
+Lemma conv_tape_some m f conv : conv_tape ((m, Some f) :: conv) = encode_nl f ++ conv_tape conv.
+Proof. reflexivity. Qed.
+Lemma conv_tape_none m conv : conv_tape ((m, None) :: conv) = conv_tape conv.
+Proof. reflexivity. Qed.
+Lemma conv_sent_cons m o conv : conv_sent ((m, o) :: conv) = sent m ++ conv_sent conv.
+Proof. reflexivity. Qed.
+
+Lemma serial_conversation : forall conv trailing out ws rs,
+  (forall ev, In ev ws -> ev <> WFail /\ ev <> WZero) -> ~ In RFail rs ->
+  Forall conv_ok conv ->
+  exists p',
+    serial_run (map fst conv)
+      {| pt_in := {| r_content := conv_tape conv ++ trailing; r_sched := rs |};
+         pt_out := {| w_out := out; w_sched := ws |} |}
+    = Some (conv_results conv, p')
+    /\ w_out (pt_out p') = out ++ conv_sent conv
+    /\ r_content (pt_in p') = trailing.
+Proof.
+  induction conv as [|[m o] conv IH]; intros trailing out ws rs Hw Hr Hok.
+  - eexists. split; [reflexivity|]. cbn. rewrite app_nil_r. auto.
+  - inversion Hok as [|c0 l0 Hc Hrest]; subst c0 l0.
+    set (p := {| pt_in := {| r_content := conv_tape ((m, o) :: conv) ++ trailing; r_sched := rs |};
+                 pt_out := {| w_out := out; w_sched := ws |} |}).
+    assert (Hnf : ~ wr_fault p).
+    { apply wr_clean_no_fault. exact Hw. }
+    destruct (serial_outcome_exists m p) as (res & p' & evs & E & H).
+    cbn [map fst serial_run]. fold p. rewrite E.
+    unfold conv_ok in Hc. cbn [fst snd] in Hc.
+    assert (Hskipw : forall j ev, In ev (skipn j ws) -> ev <> WFail /\ ev <> WZero).
+    { intros j ev Hin. apply Hw. exact (In_skipn _ _ _ Hin). }
+    assert (Hskipr : forall j, ~ In RFail (skipn j rs)).
+    { intros j Hin. apply Hr. exact (In_skipn _ _ _ Hin). }
+    destruct H as [w' k Hbad Hk Ho Hj | w' Hre Ho Hj | w' r' k Hre Ho Hj Hin Hk Hcn Hrj
+                   | w' r' e Hre Ho Hj Hcn Hrj Hd | w' r' fr Hre Ho Hj Hcn Hrj Hd];
+      try contradiction.
+    + (* no reply expected *)
+      destruct o as [f|]; [destruct Hc; congruence|].
+      destruct w' as [o' s']. cbn [w_out w_sched pt_out p] in Ho, Hj. destruct Hj as [j Hj]. subst o' s'.
+      destruct (IH trailing (out ++ sent m) (skipn j ws) rs (Hskipw j) Hr Hrest) as (p'' & Hrun & Hout & Hin).
+      cbn [pt_in p]. rewrite conv_tape_none, Hrun. exists p''. split; [reflexivity|].
+      split; [|exact Hin]. rewrite Hout, conv_sent_cons. now rewrite app_assoc.
+    + (* undecodable line: impossible, the line is a well-formed frame *)
+      destruct o as [f|]; [|congruence]. destruct Hc as [_ Hwf].
+      unfold line_in in Hd. cbn [pt_in p r_content] in Hd.
+      rewrite conv_tape_some, <- app_assoc, first_line_encode_nl in Hd. cbn [fst] in Hd.
+      destruct (C01_roundtrip f Hwf) as [_ Hdec]. congruence.
+    + destruct o as [f|]; [|congruence]. destruct Hc as [_ Hwf].
+      unfold line_in in Hd. cbn [pt_in p r_content] in Hd, Hcn.
+      rewrite conv_tape_some, <- app_assoc, first_line_encode_nl in Hd, Hcn. cbn [fst snd] in Hd, Hcn.
+      destruct (C01_roundtrip f Hwf) as [_ Hdec]. rewrite Hdec in Hd. injection Hd as <-.
+      destruct w' as [o' s']. cbn [w_out w_sched pt_out p] in Ho, Hj. destruct Hj as [j Hj]. subst o' s'.
+      destruct r' as [c' t']. cbn [r_content r_sched pt_in p] in Hcn, Hrj. destruct Hrj as [i Hi]. subst c' t'.
+      destruct (IH trailing (out ++ sent m) (skipn j ws) (skipn i rs) (Hskipw j) (Hskipr i) Hrest)
+        as (p'' & Hrun & Hout & Hin).
+      rewrite Hrun. exists p''. split; [reflexivity|].
+      split; [|exact Hin]. rewrite Hout, conv_sent_cons. now rewrite app_assoc.
+Qed.
+
+(* One failed exchange does not poison the next: whatever happened before, the next exchange on the port is
+   decided by the port's streams as they are now. *)
+Lemma serial_run_app ms1 ms2 p :
+  serial_run (ms1 ++ ms2) p
+  = match serial_run ms1 p with
+    | None => None
+    | Some (rs1, p1) =>
+        match serial_run ms2 p1 with
+        | None => None
+        | Some (rs2, p2) => Some (rs1 ++ rs2, p2)
+        end
+    end.
+Proof.
+  revert p. induction ms1 as [|m ms1 IH]; intros p; cbn [app serial_run].
+  - destruct (serial_run ms2 p) as [[rs2 p2]|]; reflexivity.
+  - destruct (serial_process m p) as [[[res p'] evs]|]; [|reflexivity].
+    rewrite IH. destruct (serial_run ms1 p') as [[rs1 p1]|]; [|reflexivity].
+    destruct (serial_run ms2 p1) as [[rs2 p2]|]; reflexivity.
+Qed.
